@@ -570,7 +570,7 @@ func c17Run(ctx *core.Ctx, in c17Input) error {
 		hx.CoqList(chg), hx.CoqBool(panicked), ec, hx.CoqList(shapes), hx.CoqBool(keySame))
 
 	// facts about the input, class, statistics
-	maxSpare, total := 0, 0
+	maxSpare, minSpare, total := 0, 1<<30, 0
 	names := make([]string, 0, len(in.Args))
 	for n := range in.Args {
 		names = append(names, n)
@@ -585,6 +585,9 @@ func c17Run(ctx *core.Ctx, in c17Input) error {
 		if v.Cap-v.Len > maxSpare {
 			maxSpare = v.Cap - v.Len
 		}
+		if n != "dst" && v.Cap-v.Len < minSpare {
+			minSpare = v.Cap - v.Len
+		}
 		total += v.Len
 		lens += fmt.Sprintf("%s%d+%d,", n[:1], v.Len, spareBucket(v.Cap-v.Len))
 	}
@@ -594,7 +597,11 @@ func c17Run(ctx *core.Ctx, in c17Input) error {
 	}
 	c.Facts["fn"] = in.Fn
 	c.Facts["alg"] = in.Alg
+	if minSpare == 1<<30 {
+		minSpare = 0
+	}
 	c.Facts["max_spare"] = maxSpare
+	c.Facts["min_spare"] = minSpare
 	c.Facts["note"] = in.Note
 	c.Class = fmt.Sprintf("%s/%s%s/%s/%s/%s", in.Fn, in.Alg, in.Kind, in.Note, lens, outcome)
 	c.Trivial = total == 0
@@ -605,6 +612,7 @@ func c17Run(ctx *core.Ctx, in c17Input) error {
 	}
 	ctx.Sink.Count("outcome=" + outcome)
 	ctx.Sink.Count(fmt.Sprintf("max_spare>=%d", spareBucket(maxSpare)))
+	ctx.Sink.Count(fmt.Sprintf("every_arg_spare>=%d", spareBucket(minSpare)))
 	if nchg > 0 {
 		ctx.Sink.Count("calls_that_changed_some_cell(dst incl.)")
 	}
@@ -628,25 +636,40 @@ func spareBucket(s int) int {
 // generators
 
 type builder struct {
-	r  *hx.Rand
-	in c17Input
+	r        *hx.Rand
+	in       c17Input
+	minSpare int // lower bound on the spare capacity of EVERY argument of this call
 }
 
+// In half of the calls every argument has at least one AES block of spare capacity behind its
+// length (an append of a padding block or of a tag would land in it); in the other half each
+// argument draws its spare capacity independently (0 included).
 func newB(r *hx.Rand, fn string) *builder {
-	return &builder{r: r, in: c17Input{Fn: fn, Args: map[string]view{}}}
+	b := &builder{r: r, in: c17Input{Fn: fn, Args: map[string]view{}}}
+	if r.Chance(1, 2) {
+		b.minSpare = 16
+	}
+	return b
 }
 
 var spareChoices = []int{0, 0, 1, 7, 15, 16, 16, 17, 24, 31, 32, 32, 33, 48, 63, 64}
 
 func (b *builder) spare() int {
+	s := spareChoices[b.r.Intn(len(spareChoices))]
 	if b.r.Chance(1, 4) {
-		return b.r.Intn(65)
+		s = b.r.Intn(65)
 	}
-	return spareChoices[b.r.Intn(len(spareChoices))]
+	if s < b.minSpare {
+		s = b.minSpare + b.r.Intn(65-b.minSpare)
+	}
+	return s
 }
 
 // add puts data into a fresh canary array: prefix | data | spare | tail-behind-cap.
 func (b *builder) addS(name string, data []byte, spare int) view {
+	if spare < b.minSpare && name != "dst" {
+		spare = b.minSpare
+	}
 	prefix := b.r.Intn(9)
 	tail := b.r.Intn(5)
 	arr := b.r.Bytes(prefix + len(data) + spare + tail)
